@@ -1337,6 +1337,13 @@ class Symex:
             if short in ("fullmatch", "match"):     # only the truth value / the matched text of a match object
                 return None if r is None else r.group(0)
             return r
+        if name == "next" and args and isinstance(args[0], list) and not kw:
+            # generators are materialised as lists that nothing else refers to: next() consumes the front
+            if args[0]:
+                return args[0].pop(0)
+            if len(args) > 1:
+                return args[1]
+            raise Raised("StopIteration", None, node)
         if name == "Counter" and len(args) <= 1 and not any(_has_sym(a) for a in args):
             c = {}
             for x in (self.iterate(args[0], node) if args else []):
